@@ -4,6 +4,10 @@ import (
 	"bytes"
 	"math/big"
 
+	"google.golang.org/protobuf/proto"
+	"reduction.dev/reduction/connectors/kinesis/kinesispb"
+	"reduction.dev/reduction/proto/workerpb"
+
 	verif "reduction.dev/reduction/zz_verif"
 )
 
@@ -99,5 +103,34 @@ func Harness_C16_ShardRoundTrip() {
 	verif.Assert(len(back.ParentIDs) == len(s.ParentIDs), "parents-preserved")
 	verif.Assert(bytes.Equal(back.HashKeyRange.Start.Bytes(), s.HashKeyRange.Start.Bytes()), "range-start-preserved")
 	verif.Assert(bytes.Equal(back.HashKeyRange.End.Bytes(), s.HashKeyRange.End.Bytes()), "range-end-preserved")
+	verif.Reached()
+}
+
+// Harness_C16_ReaderPositions: a kinesis source reader that was assigned 1..3 shards with
+// arbitrary checkpointed positions (as after a recovery) and has polled a shape-chosen number
+// of them (a polled shard holds a shard iterator) reports, at a checkpoint, one position per
+// assigned shard - the checkpointed one for a shard it has not read from yet.
+func Harness_C16_ReaderPositions() {
+	n := verif.IntRange("shards", 1, 3)
+	r := &SourceReader{streamARN: "arn"}
+	var splits []*workerpb.SourceSplit
+	cursors := make([][]byte, n)
+	for i := 0; i < n; i++ {
+		cursors[i] = verif.Bytes("cursor", verif.IntRange("cursor-len", 0, 2))
+		splits = append(splits, &workerpb.SourceSplit{SplitId: verifShardIDs[i], Cursor: cursors[i]})
+	}
+	verif.Assert(r.AssignSplits(splits) == nil, "assign-succeeds")
+	polled := verif.Choose("shards-polled-before-the-barrier", n+1)
+	for i := 0; i < polled; i++ {
+		r.assignedShards[i].shardIterator = "it" // what refreshShardIterator stores after the first poll
+	}
+	states := r.Checkpoint()
+	verif.Assert(len(states) == n, "one-position-per-assigned-shard")
+	for i := 0; i < n && i < len(states); i++ {
+		var sh kinesispb.Shard
+		verif.Assert(proto.Unmarshal(states[i], &sh) == nil, "position-decodes")
+		verif.Assert(sh.ShardId == verifShardIDs[i], "position-names-its-shard")
+		verif.Assert(bytes.Equal([]byte(sh.Cursor), cursors[i]), "unread-shard-keeps-its-checkpointed-position")
+	}
 	verif.Reached()
 }
